@@ -12,6 +12,10 @@ def replay(w):
         import check_build
 
         return check_build.replay_witness(w)
+    if kind == "respell":
+        import corr_b
+
+        return corr_b.replay_respell(w)
     if kind == "rewrite":
         import random
 
